@@ -499,6 +499,16 @@ def build_catalog():
         d = len(P["N"])
         good = torch.zeros((2, d), dtype=torch.int64)
         bad = torch.zeros((2, d + 1), dtype=torch.int64) if P["aux"] % 2 or d == 1 else torch.zeros((2, d - 1), dtype=torch.int64)
+        if (P["aux"] // 2) % 3 == 1:
+            # the documented list-of-lists form; the number of rows is a multiple of the order, so that a silent
+            # regrouping of the entries into rows of d indices would go through
+            rows = d * (1 + P["aux"] % 2)
+            cols = d + 1 if P["aux"] % 2 or d == 1 else d - 1
+            bad_l = [[0] * cols for _ in range(rows)]
+            good_l = [[0] * d for _ in range(rows)]
+            if (P["aux"] // 6) % 2:
+                bad_l, good_l = [tuple(r) for r in bad_l], [tuple(r) for r in good_l]
+            return (lambda: x.apply_mask(good_l)), (lambda: x.apply_mask(bad_l)), None
         return (lambda: x.apply_mask(good)), (lambda: x.apply_mask(bad)), None
 
     # ---- structural ops -------------------------------------------------------------------------
